@@ -113,8 +113,10 @@ def chain_lines(rng, g, N, kind):
         lines[3] = f"sett 0 {hexs(rand_tangent(rng, g, 8e-5, 0.5))}"
         lines.append(f"repeat {N} pluseq 0 0 0")
     elif kind == "ginvg":
+        # x <- (x * y^-1) * y with a fresh y: the history grows by 3 per round (composing x with its own inverse
+        # would triple it per round and overflow TLC's integers after 20 rounds)
         for _ in range(min(N, 300)):
-            lines += ["inverse 2 0 0", "compose 3 0 2", "compose 0 3 0"]
+            lines += ["inverse 2 1 0", "compose 0 0 2", "compose 0 0 1"]
     elif kind == "cast":
         for _ in range(min(N, 300)):
             lines += ["cast 2 0 0", "muleq 2 1 0", "copy 0 2 0"]
